@@ -399,6 +399,39 @@ impl OpSource for Gen {
                 return self.flat.pop_front();
             }
         }
+        // scenario: finalization without mutation. Finish the running cycle, mark atomically, and in the
+        // finalize callback probe -- with non-mutating operations only -- the weakly held objects of the root,
+        // their children and weak pointers found INSIDE dead objects or freshly made from dead strong pointers:
+        // is_dead must be true exactly for what the root does not reach
+        if v.in_cb.is_none() && self.emitted < self.prof.len && self.rng.chance(1, 25) {
+            let alive: Vec<u8> = (0..NARENAS as u8).filter(|x| v.arenas[*x as usize]).collect();
+            if !alive.is_empty() {
+                let a = self.rng.pick(&alive);
+                // while the collector sleeps, hang a fresh two-object structure from a weak root slot:
+                // root ~~> X --strong--> Y, X ~~> Y; nothing reaches X or Y strongly
+                let ws = self.rng.below(NROOT as u64) as u8;
+                let mut seq = vec![
+                    Op::Collect(a, How::FinishCycle, None),
+                    Op::Begin(a, CbKind::MutRoot),
+                    Op::M(MOp::Alloc(1, Kind::Node, 1, 1)), Op::M(MOp::Alloc(2, self.rng.pick(&[Kind::Leaf, Kind::Node, Kind::Struct]), 1, 0)),
+                    Op::M(MOp::Downgrade(0, 2)), Op::M(MOp::StoreW(1, 0, Some(0))), Op::M(MOp::Store(1, 0, Some(2))),
+                    Op::M(MOp::Downgrade(3, 1)), Op::M(MOp::RootSetW(ws, Some(3))), Op::End,
+                    Op::Begin(a, CbKind::Finalize(true)),
+                ];
+                for i in 0..NROOT as u8 {
+                    seq.extend([
+                        Op::M(MOp::LoadRootW(0, i)), Op::M(MOp::IsDeadW(0)), Op::M(MOp::Upgrade(1, 0)),
+                        Op::M(MOp::LoadW(2, 1, 0)), Op::M(MOp::IsDeadW(2)),
+                        Op::M(MOp::Load(3, 1, 0)), Op::M(MOp::IsDead(3)), Op::M(MOp::Downgrade(4, 3)), Op::M(MOp::IsDeadW(4)),
+                        Op::M(MOp::LoadRoot(5, i)), Op::M(MOp::IsDead(5)),
+                    ]);
+                }
+                seq.push(Op::End);
+                seq.push(Op::Collect(a, How::FinishCycle, None));
+                self.flat.extend(seq.iter().copied());
+                return self.flat.pop_front();
+            }
+        }
         // scenario: a handle of a LIVE arena is presented to a set of another live arena (must be refused by
         // contains / try_fetch / fetch alike), then both arenas are collected and the handle is dropped
         if v.in_cb.is_none() && self.prof.multi_arena && self.emitted < self.prof.len && v.arenas[0] && self.rng.chance(1, 40) {
@@ -486,6 +519,17 @@ impl OpSource for Gen {
                         self.tpl.push_back(Op::M(MOp::LoadRootW(w0, r.below(NROOT as u64) as u8)));
                     }
                     self.tpl.push_back(Op::M(MOp::Upgrade(r1, w0)));
+                    // ... and half of the time adopt the upgraded (possibly only weakly marked) object by the
+                    // black holder right away, under a pair barrier or through the store API
+                    if r.chance(1, 2) {
+                        if r.chance(1, 2) {
+                            self.tpl.push_back(Op::M(MOp::BarB(r0, Some(r1))));
+                            self.tpl.push_back(Op::M(MOp::RawStore(r0, r.below(2) as u8, r1)));
+                        } else {
+                            self.tpl.push_back(Op::M(MOp::Store(r0, r.below(2) as u8, Some(r1))));
+                        }
+                        self.cb_left += 2;
+                    }
                     self.cb_left += 4;
                     return Some(Op::M(MOp::LoadRoot(r0, slot)));
                 }
